@@ -209,7 +209,7 @@ def vm_crosscheck(pairs, workdir):
 
 
 # ------------------------------------------------------------------ implementation side
-def run_impl(prop, cases, workdir, jobs=JOBS, timeout_s=None):
+def run_impl(prop, cases, workdir, jobs=JOBS, timeout_s=None, cov_out=None):
     """Run the implementation on the cases in child processes. Returns list of records (same order)."""
     n = max(1, min(jobs, (len(cases) + 199) // 200))
     shards = [cases[i::n] for i in range(n)]
@@ -223,6 +223,9 @@ def run_impl(prop, cases, workdir, jobs=JOBS, timeout_s=None):
         env = dict(os.environ, PYTHONPATH=REPO, PYTHONHASHSEED="0", PYTHONDONTWRITEBYTECODE="1", VERIF_REPO=REPO)
         env.pop("BIBTEXPARSER_VERIF", None)
         env["BIBTEXPARSER_VERIF"] = "1"
+        env.pop("VERIF_COV_OUT", None)
+        if k == 0 and cov_out:
+            env["VERIF_COV_OUT"] = cov_out         # statement coverage of /repo is sampled on the first shard
         p = subprocess.Popen([PY, "-B", os.path.join(HERE, "impl_runner.py"), prop, inp, outp], cwd=workdir, env=env,
                              stdout=subprocess.PIPE, stderr=subprocess.STDOUT, text=True)
         procs.append((p, outp, sh))
@@ -305,7 +308,8 @@ def load_corpus(prop):
 def evaluate(prop, mod, cases, workdir, out, vm_sample_rng=None, do_vm=True):
     """Run impl + model on cases; fill outcome; return stats dict."""
     t0 = time.time()
-    recs = run_impl(prop, cases, workdir)
+    cov_out = os.path.join(workdir, "coverage.json")
+    recs = run_impl(prop, cases, workdir, cov_out=cov_out)
     t_impl = time.time() - t0
     t0 = time.time()
     idx = [i for i, r in enumerate(recs) if r.get("sx_in") is not None]
@@ -354,6 +358,13 @@ def evaluate(prop, mod, cases, workdir, out, vm_sample_rng=None, do_vm=True):
             disagreements.append({"case": c, "model": m, "impl": r["sx_out"], "sx_in": r["sx_in"],
                                   "oracle": r.get("oracle"), "summary": r.get("summary")})
     stats["disagreements"] = disagreements
+    if os.path.exists(cov_out):
+        try:
+            cv = json.load(open(cov_out))
+            stats["code_coverage_first_shard"] = {f: {"statements": v[0], "executed": v[0] - v[1]} for f, v in sorted(cv.items())
+                                                  if v[0] - v[1] > 0 and not f.endswith("__init__.py")}
+        except Exception:
+            pass
     # vm_compute cross-check of the extraction on a seeded sample
     if do_vm and pairs and model_out is not None:
         rng = vm_sample_rng or random.Random(0)
@@ -554,6 +565,7 @@ def _run(prop, tier, a, mod, out, workdir, t_start):
             "oracle_checked": stats["oracle_checked"],
             "input_distribution": {"streams": stats["streams"], "results": stats["results"]},
             "vm_crosscheck": stats.get("vm_crosscheck"),
+            "repo_statement_coverage_sampled": stats.get("code_coverage_first_shard"),
             "known_findings_hit": out.known,
             "impl_s": stats["impl_s"], "model_s": stats["model_s"], "build_s": round(b_s, 1),
         },
